@@ -22,6 +22,10 @@ def bases(ctx, tier):
     B["nested-different-format"] = (ops.build(ctx, T, [c("d", ["md5"]), c("", ["xxh64"])], expect=[0, 0]), True)
     B["nested2-different-formats"] = (ops.build(ctx, T, [c("d/e", ["sha1"]), c("d", ["md5"]), c("", ["xxh64"])],
                                                 expect=[0, 0, 0]), True)
+    # a nested history with an ignore pattern of its own: it must not reach beyond that history
+    # (no entry inside d matches it, so d's own hashes do not depend on which run - its own or the parent's - wrote them)
+    t2 = dict(T); t2["keep.log"] = b"sealed by the root history"
+    B["nested-own-pattern"] = (ops.build(ctx, t2, [c("d", ["xxh64"], i=["*.log"]), c("", ["xxh64"])], expect=[0, 0]), True)
     B["n-generation-after-normal"] = (ops.build(ctx, T, [c("", ["xxh64"]), c("", ["xxh64"], n=True)], expect=[0, 0]), True)
     B["n-generation-before-normal"] = (ops.build(ctx, T, [c("", ["xxh64"], n=True), c("", ["xxh64"])], expect=[0, 0]), True)
     B["n-generation-only"] = (ops.build(ctx, T, [c("", ["xxh64"], n=True)], expect=[0]), False)
@@ -51,6 +55,9 @@ def mutations(tree):
         else:
             out.append((f"change {p}", ["write", p, cont + b"!"]))
             out.append((f"remove {p}", ["rm", p]))
+    if "keep.log" in med:
+        out.append(("add new.log", ["write", "new.log", b"new file whose name matches the nested history's pattern"]))
+        out.append(("add emp/new.log", ["write", "emp/new.log", b"the same one level down"]))
     out.append(("add new.bin", ["write", "new.bin", b"new file in root"]))
     out.append(("mkdir newdir", ["mkdir", "newdir"]))
     return out
